@@ -202,8 +202,11 @@ family(
         'w1': dict(build='nested-files', mounts=[dict(ns=None, values={'x': 1}, tasks=['a', 'g:a', 'pat', 'opt'])]),
         'w2': dict(build='nested-files', mounts=[dict(ns=None, values={'x': 1}, tasks=['a', 'b', 'opt'])]),
         'w3': dict(build='nested-files', mounts=[dict(ns=None, values={'x': 1, 'y': 2}, tasks=['a', 'g:a', 'b', 'pat', 'opt'])]),
+        # the optional input exists only INSIDE a namespace mounted below: the root task must not pick it up
+        'w4': dict(build='nested-files', mounts=[dict(ns=None, values={'x': 1}, tasks=['a', 'opt']),
+                                                 dict(ns='lo', values={'x': 1}, tasks=['a', 'b'])]),
     },
-    lists=[['w1'], ['w2'], ['w3'], ['w1', 'w2'], ['w1', 'w3'], ['w2', 'w3']],
+    lists=[['w1'], ['w2'], ['w3'], ['w4'], ['w1', 'w2'], ['w1', 'w3'], ['w2', 'w3'], ['w2', 'w4']],
 )
 
 
